@@ -164,18 +164,13 @@ Definition frame_view_tbl (tbl : list (string * tsrc * option (N * N))) (ptbl : 
 Lemma bind_ext {A B} (x : outcome A) (f h : A -> outcome B) : (forall a, f a = h a) -> bind x f = bind x h.
 Proof. intro H. destruct x; cbn [bind]; auto. Qed.
 
-(* The frames on which the hand model is stricter than the source: the hand model demands the item columns as soon as the
-   item offsets are there, the source unwraps self.item only inside the loop over the frame's items (so an absent item
-   column set goes unnoticed on a frame without items).  Frames produced by the parser, by with_capacity and by
-   from_struct_array have both or neither. *)
-Definition items_present (fr : frames) : Prop := f_item fr = None -> f_item_off fr = None.
-
-(* THE theorem: full equality, panics included *)
+(* THE theorem: full equality, panics included, for EVERY frame set -- also the ones no constructor of the crate produces
+   (item offsets without item columns: self.item is unwrapped inside the loop over the frame's items only, in the source
+   and in the hand model alike) *)
 Theorem frame_view_from_source v fr i :
-  items_present fr ->
   frame_view v fr i = frame_view_tbl imm_frame_transpose imm_portdata_transpose imm_data_transpose v fr i.
 Proof.
-  intro Hit. unfold frame_view, frame_view_tbl, imm_frame_transpose.
+  unfold frame_view, frame_view_tbl, imm_frame_transpose.
   cbn [ev_id ev_ports ev_row ev_items].
   repeat match goal with
   | |- context [ffield_of ?s] => ev_term (ffield_of s)
@@ -186,21 +181,23 @@ Proof.
   apply bind_ext; intro ports.
   apply bind_ext; intro st.
   apply bind_ext; intro en.
-  destruct (vgte v 3 0); [|reflexivity].
-  destruct (f_item_off fr) as [offs|] eqn:Eo.
-  - destruct (f_item fr) as [items|] eqn:Ei; [reflexivity|].
-    rewrite (Hit Ei) in Eo. discriminate.
-  - destruct (f_item fr); reflexivity.
+  reflexivity.
 Qed.
 
-(* the difference excluded by [items_present], made concrete: offsets without item columns, on a frame with no items *)
+(* the corner on which an earlier, stricter hand model differed from the source, made concrete: offsets without item columns.
+   On a frame with no items both sides succeed with the empty item list; on a frame with an item both sides panic at the
+   unwrap of self.item (604), not at an index *)
 Example frame_view_item_none :
   let v : version := (3, 0, 0)%N in
-  let fr := {| f_ids := [0%Z]; f_chars := []; f_start := Some [[]]; f_end := Some [[]];
-               f_item_off := Some [0%Z; 0%Z]; f_item := None |} in
-  frame_view v fr 0 = Panic 604 /\
-  exists w, frame_view_tbl imm_frame_transpose imm_portdata_transpose imm_data_transpose v fr 0 = Ok w.
-Proof. split; [vm_compute; reflexivity|]. eexists. vm_compute. reflexivity. Qed.
+  let fr := {| f_ids := [0%Z; 1%Z]; f_chars := []; f_start := Some [[]; []]; f_end := Some [[]; []];
+               f_item_off := Some [0%Z; 0%Z; 1%Z]; f_item := None |} in
+  let tbl := frame_view_tbl imm_frame_transpose imm_portdata_transpose imm_data_transpose v fr in
+  (exists w, frame_view v fr 0 = Ok w /\ tbl 0%nat = Ok w /\ fv_items w = Some []) /\
+  frame_view v fr 1 = Panic 604 /\ tbl 1%nat = Panic 604.
+Proof.
+  split; [eexists; split; [vm_compute; reflexivity|split; vm_compute; reflexivity]|].
+  split; vm_compute; reflexivity.
+Qed.
 
 (* mutable::Frame (the live-parsing API) and immutable::Frame transpose in the same way *)
 Theorem transpose_tables_agree :
@@ -209,7 +206,6 @@ Theorem transpose_tables_agree :
 Proof. repeat split; vm_compute; reflexivity. Qed.
 
 Corollary frame_view_mutable_from_source v fr i :
-  items_present fr ->
   frame_view v fr i = frame_view_tbl mut_frame_transpose mut_portdata_transpose mut_data_transpose v fr i.
 Proof.
   destruct transpose_tables_agree as (-> & -> & ->). apply frame_view_from_source.
